@@ -64,6 +64,16 @@ theorem settings_restored_history (bs : List Block) (w : World) :
     (runTop Generated.CtxIR.managers bs w).glob = w.glob :=
   runTop_restores _ generated_good bs w
 
+/-- **Code run later sees the settings in force when it runs**: anything whose behaviour is a function of the
+    settings in force at the time of the call (the body of a `to_function` function, of a Function class, a
+    subgraph or `inline` callback, an operator on Vars created earlier) behaves after any block program exactly as
+    before it - whatever happened inside, including the object's creation or first use. (That the real bodies ARE
+    functions of the settings at call time - nothing captured at creation or first use - is what the carrier
+    scenarios check on every run.) -/
+theorem behaviour_after_blocks {α : Type} (f : Globals → α) (bs : List Block) (w : World) :
+    f (runTop Generated.CtxIR.managers bs w).glob = f w.glob := by
+  rw [settings_restored_history bs w]
+
 /-- Inside the block the setting *is* in force: the body of a block over manager `which` with
     argument `arg` is run exactly in the world where that setting is `arg` and the others are
     untouched (the manager run with `body` equals the run with `body` evaluated at that world). -/
